@@ -1,6 +1,8 @@
 import Driver.SafePtr
+import Driver.Dispatch
 
 def main (args : List String) : IO UInt32 := do
   match args with
   | ["safeptr"] => Driver.SafePtr.main; return 0
+  | ["dispatch"] => Driver.Dispatch.main; return 0
   | _ => IO.eprintln "usage: driver <area>"; return 2
